@@ -47,9 +47,10 @@ PROPS = {
     technique='Lean 4 proof (rational model of IEEE doubles; rne53 relative-error and monotonicity lemmas) + differential correspondence of the compiled model against ClockErrorBound::now() under an interposed clock',
     level_text='Theorems C05.symmetric / growth_bounds / growth_mono / mono_holds / model_holds prove, for every record and clock reading in the physically meaningful range, symmetry, ordering, half-width = bound + growth with P(1-2^-51)-1 < growth <= P(1+2^-51), and monotonicity in age, about a line-by-line model of compute_bound_at including a bit-exact rational model of the f64 operations. The model is tied to the current source by running the real now() on ~35k generated cases per run and comparing intervals exactly.',
     level_note='Trusted: Lean kernel + 3 standard axioms; nix TimeSpec and IEEE rounding are modelled (mirrored), not verified; correspondence is differential testing.',
-    gens=lambda seed, th: [['client', seed, 400000 if th else 25000], ['client2', seed, 200000 if th else 10000]],
-    relevant=lambda c: kind(c) in ('client', 'client2'),
-    project=proj_client('interval'),
+    gens=lambda seed, th: [['client', seed, 400000 if th else 25000], ['client2', seed, 200000 if th else 10000], ['corder', seed, 5000 if th else 600]],
+    relevant=lambda c: kind(c) in ('client', 'client2', 'corder'),
+    also=['C12'],
+    project=lambda c: (c.impl.split(' ; ')[0], c.model.split(' ; ')[0]) if kind(c) == 'corder' else proj_client('interval')(c),
     nontrivial=lambda c: 'growth' in c.tags,
     rule="cases from one PRNG (VERIF_SEED): records x (realtime, monotonic) readings biased to nsec in {0,1,999999999}, ages in {0, sub-us, 1 s +- 1 ns, hours, days}, drift in {0,1,999,50000,999999999}, products drift*age/1e9 straddling integers; `client2` = two readings of one record (monotonicity). distinct = sha1 of request line; non-trivial = age > 0 and drift > 0 and exact growth >= 1 ns (tag `growth`) and the C05 hypotheses apply",
     trusted_base=CLIENT_TB,
@@ -149,6 +150,9 @@ def c19_gen(seed, thorough):
         for v in ('none', 50, 0, 4294967, 4294968):
             reqs.append(f'drift {v} @env')
         reqs.append('drift 50 @prior 1000 @env')
+        # the option takes whole ppm: fractions are rejected (or, if ever accepted, published exactly)
+        for v in ('1.015', '2.002', '0.0004', '33.333333', '0.5', '4294967.2959', '1.000'):
+            reqs.append(f'drift {v}')
         return c19_run(reqs)
     return [g]
 
@@ -302,8 +306,10 @@ PROPS.update({
  ),
  'C18': sl_entry('C18', lambda c: bool(c.tags & {'retry', 'crash', 'exhaust'}),
     "plus `slx` lines: the real snapshot() alone against scripted load results (a continuously updating writer: the generation changes at every load) until it gives up - the number of attempts must be exactly the budget; non-trivial = a call retried, the writer was killed mid-update, or the budget was exhausted",
-    gens=lambda seed, th: [['slgen', seed, 20000 if th else 800], ['slxgen', 'all'] if th else ['slxgen']],
-    relevant=lambda c: kind(c) in ('sl', 'slx'),
+    gens=lambda seed, th: [['slgen', seed, 20000 if th else 800], ['slxgen', 'all'] if th else ['slxgen'], ['client', seed, 20000 if th else 1500]],
+    relevant=lambda c: kind(c) in ('sl', 'slx', 'client'),
+    also=['C14'],
+    project=lambda c: proj_client('class')(c) if kind(c) == 'client' else proj_sl(c),
     lean_modules=['ClockBound.Properties.C18'],
     technique='Lean 4 termination measure on the reader machine, for every log and every load result + full exhaustion runs of the real snapshot() against an adversarial value script + scheduler runs with a writer killed at every kind of point',
     level_text='Theorems C18.step_decreases / bounded: every shared access of snapshot() ends the call or strictly decreases an explicit measure <= 2 + 10^6 * 9, whatever the log contains and whatever the loads return (so for a writer stopped for ever at any point or updating continuously); in_flight_answers_from_cache / version_zero_answers_from_cache: an odd or zero generation, or version 0, is answered from the cache after at most two loads.',
@@ -312,10 +318,11 @@ PROPS.update({
 })
 
 PROPS['C01'] = dict(
-    oracle='C01', also=['C02'],
+    oracle='C01', also=['C02', 'C13', 'C07'],
     lean_modules=['ClockBound.Properties.C01'],
-    gens=lambda seed, th: [['worldgen', seed, 30000 if th else 1200], ['slgen', seed, 5000 if th else 300], ['slxgen']],
-    relevant=lambda c: kind(c) in ('world', 'sl', 'slx'),
+    gens=lambda seed, th: [['worldgen', seed, 30000 if th else 1200], ['slgen', seed, 5000 if th else 300], ['slxgen'], ['poll', seed, 10000 if th else 1500]],
+    relevant=lambda c: kind(c) in ('world', 'sl', 'slx', 'poll'),
+    project=lambda c: proj_poll_c13(c) if kind(c) == 'poll' else (c.impl, c.model),
     require={'ann': 'adequate'},
     nontrivial=lambda c: 'trusted' in c.tags and 'tight' in c.tags,
     shrink=True,
@@ -351,6 +358,13 @@ EXTERNAL.update(EXTERNAL_THREADS)
 # properties whose theorem files are still being proved are not claimed yet
 for _p in ():
     PROPS[_p]['claimed'] = False
+
+# ------------------------------------------------------------------ translation tie (Rust AST regenerated by /verif/translator)
+CODE_TIE = {'C05': ['Client'], 'C06': ['Client'], 'C14': ['Client'], 'C01': ['Client', 'Updater', 'Extract', 'Drift'],
+            'C07': ['Extract'], 'C10': ['Extract', 'Leap'], 'C08': ['Updater'], 'C09': ['Updater'], 'C19': ['Drift']}
+for _p, _g in CODE_TIE.items():
+    if _p in PROPS:
+        PROPS[_p]['code_tie'] = [f'ClockBound.Properties.CodeTie{_x}' for _x in _g]
 
 # ------------------------------------------------------------------ translated constants (supplementary source tie)
 CONSTS = {'C05': 'Client', 'C06': 'Client', 'C14': 'Client', 'C18': 'Reader', 'C11': 'Gen', 'C16': 'Magic', 'C17': 'Magic',
